@@ -7,7 +7,7 @@
    sub-steps of getLayer (LoadRef / Resolve / Probe) and timer expiries of the resolver cache (Expire): every interleaving
    of racing lookups, at the granularity of one resolveLayer call, is such a list. [w] is an arbitrary registry. *)
 From Coq Require Import List Arith ZArith Bool.
-From SV Require Import Model.Store Proofs.Store.
+From SV Require Import Model.Store Proofs.Store Model.StoreFS Proofs.StoreFS.
 Import ListNotations.
 
 (* Lookup of a digest that no layer of the image has fails - in every reachable state, whatever the fault script. *)
@@ -134,6 +134,148 @@ Proof.
   vm_compute. repeat split; auto.
 Qed.
 Print Assumptions C16_original_code_refuted.
+
+(* ------------------------------------------------------------------------------------------------------------
+   Phase 2.  (b) The finer split of resolveLayer. Before C16-fix-4 a successful resolveLayer recorded its success in a
+   deferred, separately locked step after cacheLayer. A release of the last use landing in between (F28, reproduced on
+   the real code through the gate hook) dropped the layer and reset the memo, and the late write then marked the dropped
+   layer as resolved: with a healthy registry and no fault ever, the layer can never be looked up again. *)
+Theorem C16_late_memo_refuted :
+  exists (w : world) (r t l : nat),
+    In l (image w r) /\ toc_of w l = Some t /\
+    let s := memo_late (fst (release Fixed (cache_only w (fst (use init r t)) r l false) r t)) r l true in
+    snd (get_layer w s r t false []) = RFail
+    /\ snd (get_layer w (fst (get_layer w s r t false [])) r t false []) = RFail
+    /\ has_ref_counts s r = false.
+Proof. exists (mkW [Some 0] [[0]]), 0, 0, 0. vm_compute. repeat split; auto. Qed.
+Print Assumptions C16_late_memo_refuted.
+
+(* With the fix the cached layer and its memo entry are written in one locked section, [resolve1]; the same schedule
+   (use; resolve ... release ... ; lookup) then ends in a successful lookup - for every registry, layer and state. *)
+Theorem C16_release_during_resolve_harmless :
+  forall (w : world) (os : list op) (r t l : nat),
+    let s := exec Fixed w init os in
+    In l (image w r) -> toc_of w l = Some t -> memo_find (memo s) r l <> Some false ->
+    let s' := exec Fixed w s [Resolve r l false; Release r t] in
+    memo_find (memo s') r l <> Some false
+    /\ snd (step Fixed w s' (Lookup r t false [])) = ROk.
+Proof. intros w os r t l. exact (release_during_resolve_harmless w os r t l). Qed.
+Print Assumptions C16_release_during_resolve_harmless.
+
+(* ------------------------------------------------------------------------------------------------------------
+   Phase 2.  (a) The FUSE handlers of store/fs.go (Model/StoreFS.v). A client operation is a path walk followed by the
+   final handler; [fexec v w finit fos] is the state (manager + node tree) after the handler history [fos].
+   Every handler step performs at most one manager call, named by [mgr_ops] from the node tree (none when the node is
+   served from the tree); its effect on the manager is exactly that call, its errno is [errno_of] of the call's result;
+   hence every handler history is the manager history [ftrace] - and every theorem above about [exec Fixed w init os]
+   applies to the manager under the handlers. *)
+Theorem C16_fs_handlers_refine_manager :
+  forall (v : fvariant) (w : world),
+    (forall (f : fstate) (o : fop),
+        length (mgr_ops f o) <= 1
+        /\ mgr (fst (fstep v w f o)) = exec Fixed w (mgr f) (mgr_ops f o)
+        /\ snd (fstep v w f o) = errno_of f o (mgr_result w f o))
+    /\ (forall fos : list fop, mgr (fexec v w finit fos) = exec Fixed w init (ftrace v w finit fos)).
+Proof.
+  intros v w. split.
+  - intros f o. split; [exact (mgr_ops_short f o)|]. split; [exact (fstep_mgr v w f o)|exact (fstep_errno v w f o)].
+  - intros fos. exact (fexec_mgr v w fos finit).
+Qed.
+Print Assumptions C16_fs_handlers_refine_manager.
+
+(* What a successful diff/blob lookup hands out is a node in the tree; in every reachable state such a node is backed by
+   a layer the manager still holds (with C16-fix-3). *)
+Theorem C16_fs_node_backed_by_held_layer :
+  forall (w : world) (fos : list fop) (r t k p : nat),
+    In (r, t, k, p) (fnodes (fexec FSweep w finit fos)) -> k < 2 ->
+    cached (mgr (fexec FSweep w finit fos)) r t = true.
+Proof. intros w fos r t k p. exact (freach_backed w fos r t k p). Qed.
+Print Assumptions C16_fs_node_backed_by_held_layer.
+
+(* store/fs.go before C16-fix-3 (FNoSweep), on top of C16-fix-2: after the last release of the image the sibling's
+   diff node is still in the tree although the manager has released that layer (F27). *)
+Theorem C16_fs_node_backed_refuted :
+  exists (w : world) (fos : list fop) (r t : nat),
+    has_f (fexec FNoSweep w finit fos) r t 0 = true /\ cached (mgr (fexec FNoSweep w finit fos)) r t = false.
+Proof.
+  exists (mkW [Some 0; Some 1] [[0; 1]]),
+         [FLookup 0 0 KDiff false []; FLookup 0 1 KDiff false []; FUse 0 0; FRmdir 0 0], 0, 1.
+  vm_compute. split; reflexivity.
+Qed.
+Print Assumptions C16_fs_node_backed_refuted.
+
+Theorem C16_fs_lookup_other_digest_fails :
+  forall (w : world) (fos : list fop) (r t : nat) (k : fkind) (mf : bool) (fl : list nat),
+    is_layer_kind k -> ~ image_has_toc w r t ->
+    snd (fstep FSweep w (fexec FSweep w finit fos) (FLookup r t k mf fl)) = EIO.
+Proof. intros w fos r t k mf fl. exact (fs_lookup_other_digest_fails w fos r t k mf fl). Qed.
+Print Assumptions C16_fs_lookup_other_digest_fails.
+
+(* Full statement: as below without the last hypothesis; false for the same reason as at the manager level (F26). *)
+Theorem C16_fs_lookup_succeeds_refuted :
+  exists (w : world) (fos : list fop) (r t l : nat),
+    In l (image w r) /\ toc_of w l = Some t /\
+    snd (fstep FSweep w (fexec FSweep w finit fos) (FLookup r t KDiff false [])) = EIO.
+Proof.
+  exists (mkW [Some 0; Some 1] [[0; 1]]), [FLookup 0 1 KDiff false [1]], 0, 1, 1.
+  vm_compute. repeat split; auto.
+Qed.
+Print Assumptions C16_fs_lookup_succeeds_refuted.
+
+Theorem C16_fs_lookup_succeeds_partial :
+  forall (w : world) (fos : list fop) (r t l : nat) (k : fkind) (mf : bool) (fl : list nat),
+    is_layer_kind k ->
+    let f := fexec FSweep w finit fos in
+    In l (image w r) -> toc_of w l = Some t ->
+    manifest_available (mgr f) r mf -> mem l fl = false ->
+    memo_find (memo (mgr f)) r l <> Some false ->
+    snd (fstep FSweep w f (FLookup r t k mf fl)) = EOK.
+Proof. intros w fos r t l k mf fl. exact (fs_lookup_succeeds w fos r t l k mf fl). Qed.
+Print Assumptions C16_fs_lookup_succeeds_partial.
+
+(* The rmdir that releases the last use of an image leaves nothing of the image behind - no layer, memo, count in the
+   manager and no directory or file of it in the tree - so the next lookup of any of its layers is a manager lookup
+   again, and it succeeds as soon as the registry answers. *)
+Theorem C16_fs_last_rmdir_resets :
+  forall (w : world) (fos : list fop) (r t : nat) (c : Z),
+    let f := fexec FSweep w finit fos in
+    count_find (counts (mgr f)) r t = Some c ->
+    let f' := fst (fstep FSweep w f (FRmdir r t)) in
+    has_ref_counts (mgr f') r = false ->
+    has_ref_layers (mgr f') r = false /\ has_ref_memo (mgr f') r = false
+    /\ (forall t', has_l f' r t' = false)
+    /\ (forall t' k, has_f f' r t' k = false)
+    /\ forall t2 l k mf fl, is_layer_kind k -> In l (image w r) -> toc_of w l = Some t2 ->
+         manifest_available (mgr f') r mf -> mem l fl = false ->
+         mgr_ops f' (FLookup r t2 k mf fl) = [Lookup r t2 mf fl]
+         /\ snd (fstep FSweep w f' (FLookup r t2 k mf fl)) = EOK.
+Proof. intros w fos r t c. exact (fs_last_rmdir_resets w fos r t c). Qed.
+Print Assumptions C16_fs_last_rmdir_resets.
+
+(* Counts are never negative and a layer with outstanding uses is never released, under any handler history. *)
+Theorem C16_fs_counts_and_uses :
+  forall (v : fvariant) (w : world) (fos : list fop),
+    let f := fexec v w finit fos in
+    (forall r t c, In (r, t, c) (counts (mgr f)) -> (1 <= c)%Z)
+    /\ (forall r t, (0 <= uses (mgr f) r t)%Z)
+    /\ (forall o r t, cached (mgr f) r t = true -> (0 < uses (mgr (fst (fstep v w f o))) r t)%Z ->
+                      cached (mgr (fst (fstep v w f o))) r t = true).
+Proof.
+  intros v w fos f. split; [exact (fs_counts_positive v w fos)|]. split; [exact (fs_uses_nonneg v w fos)|].
+  intros o r t. exact (fs_keeps_used v w fos o r t).
+Qed.
+Print Assumptions C16_fs_counts_and_uses.
+
+Example C16_fs_nonvacuous :
+  let w := mkW [Some 0; Some 1; None] [[0; 1; 2]] in
+  let fos := [FLookup 0 0 KDiff false []; FLookup 0 0 KInfo false []; FLookup 0 1 KBlob false []; FUse 0 0; FUse 0 0;
+              FRmdir 0 0; FLookup 0 0 KDiff true [0]] in
+  let f := fexec FSweep w finit fos in
+  count_find (counts (mgr f)) 0 0 = Some 1%Z /\ has_f f 0 1 1 = true /\ has_f f 0 0 2 = true
+  /\ ftrace FSweep w finit fos = [Lookup 0 0 false []; Info 0 0 false; Lookup 0 1 false []; Use 0 0; Use 0 0; Release 0 0]
+  /\ has_ref_counts (mgr (fst (fstep FSweep w f (FRmdir 0 0)))) 0 = false
+  /\ has_l (fst (fstep FSweep w f (FRmdir 0 0))) 0 1 = false.
+Proof. vm_compute. repeat split; auto. Qed.
 
 (* Non-vacuity. The same history on the repaired code: everything of the image is dropped and the lookup succeeds again;
    and a history with faults, shared layers, a release of one layer while another is used. *)
